@@ -154,7 +154,7 @@ func c03Generate(c *mon.Ctx) {
 	}
 
 	// 3. structured x around every decision boundary, compressed and as coordinates
-	for _, v := range gen.Raw256(oracle.P) {
+	for _, v := range append(gen.Raw256(oracle.P), gen.UnitDigitTuples(oracle.P)...) {
 		for _, pfx := range []byte{2, 3} {
 			emitBytes(append([]byte{pfx}, oracle.Bytes32(v.X)...), "x:"+v.Class)
 		}
